@@ -1,14 +1,16 @@
 #!/usr/bin/env python3
 """Confirm a sub-agent mutation in a fresh scratch worktree and store it under /verif/seeded.
 
-usage: confirm_seeded.py <Cxx> <n>     (reads /tmp/wt/<Cxx>.out/{patch,demo,meta}_<n>.*)
+usage: confirm_seeded.py <Cxx> <n> [srcroot=/tmp/wt] [dst_n=n]   (reads <srcroot>/<Cxx>.out/{patch,demo,meta}_<n>.*)
 Checks: demo passes on clean tree, patch applies, demo fails with patch, pytest failure set
 equals the clean tree's.  Removes the scratch worktree afterwards.
 """
 import json, os, shutil, subprocess, sys, tempfile
 
 pid, n = sys.argv[1], sys.argv[2]
-src = f'/tmp/wt/{pid}.out'
+root = sys.argv[3] if len(sys.argv) > 3 else '/tmp/wt'
+dstn = sys.argv[4] if len(sys.argv) > 4 else n
+src = f'{root}/{pid}.out'
 patch, demo, meta = (f'{src}/patch_{n}.diff', f'{src}/demo_{n}.py', f'{src}/meta_{n}.json')
 wt = tempfile.mkdtemp(prefix=f'confirm_{pid}_{n}_', dir='/tmp')
 os.rmdir(wt)
@@ -28,11 +30,11 @@ try:
            f'-o addopts="--doctest-modules --doctest-continue-on-failure" 2>&1 | grep -E "^(FAILED|ERROR)|passed" | sort')
     lines = r.stdout.strip().splitlines()
     fails = sorted(l for l in lines if l.startswith(('FAILED', 'ERROR')))
-    base = sorted(l.rstrip('\n') for l in open('/tmp/wt/baseline_failures.txt'))
+    base = sorted(l.rstrip('\n') for l in open(f'{root}/baseline_failures.txt'))
     assert fails == base, ('test results differ', set(fails) ^ set(base))
     summ = [l for l in lines if 'passed' in l]
-    assert summ and '542 passed' in summ[0], summ
-    dst = f'/verif/seeded/{pid}_{n}'
+    assert summ and ('542 passed' in summ[0] or '543 passed' in summ[0]), summ
+    dst = f'/verif/seeded/{pid}_{dstn}'
     os.makedirs(dst, exist_ok=True)
     shutil.copy(patch, f'{dst}/patch.diff'); shutil.copy(demo, f'{dst}/demo.py')
     m = json.load(open(meta))
